@@ -28,16 +28,23 @@ def run(ck):
 
     m = ck.repo.mod(CP)
     fn = m.func("is_expr_cst")
-    loops = [n for n in walk_body(fn) if isinstance(n, ast.For)]
-    ck.need(loops, "is_expr_cst: loop over the elements not found")
-    var = norm(loops[0].target)
-    accepted = []
-    for s in loops[0].body:
-        if isinstance(s, ast.If) and any(isinstance(x, ast.Continue) for x in s.body):
-            accepted.append(norm(s.test))
+    from sa.astutil import Resolver as _Res
+    _r = _Res(fn)
+    # the leaves accepted as constant, whatever the spelling: `for leaf in L: if T: continue ... return False` or `all(T1 or T2 .. for leaf in L)`
+    accepted, iters = [], []
+    for lp in [n for n in walk_body(fn) if isinstance(n, ast.For)]:
+        iters.append(lp.iter)
+        for s_ in lp.body:
+            if isinstance(s_, ast.If) and any(isinstance(x, ast.Continue) for x in s_.body):
+                accepted.append(norm(s_.test))
+    for c in [n for n in walk_body(fn) if isinstance(n, ast.Call) and dotted(n.func) == "all" and n.args and isinstance(n.args[0], (ast.GeneratorExp, ast.ListComp))]:
+        g = c.args[0]
+        iters.append(g.generators[0].iter)
+        e = g.elt
+        accepted.extend(norm(v) for v in (e.values if isinstance(e, ast.BoolOp) and isinstance(e.op, ast.Or) else [e]))
+    ck.need(iters, "is_expr_cst: enumeration of the expression's leaves not found")
     mem_ok = [a for a in accepted if "is_mem()" in a or "ExprMem" in a]
-    reads_mem = "mem_read=True" in norm(loops[0].iter) or any(
-        isinstance(n, ast.Assign) and norm(n.targets[0]) == norm(loops[0].iter) and "mem_read=True" in norm(n.value) for n in walk_body(fn))
+    reads_mem = any("mem_read=True" in norm(_r.expand_node(it)) for it in iters)
     ck.ob("R1", "is_expr_cst:memory", not mem_ok and reads_mem, m.where(fn),
           "is_expr_cst treats a memory read as constant (`%s`): a value loaded before a store to the same cell is propagated past "
           "the store" % (mem_ok[0] if mem_ok else "memory elements are not even enumerated"))
@@ -55,8 +62,18 @@ def run(ck):
                     eq = True
     ck.ob("R2", "SymbolicState.merge:equal-values", eq, sm.where(fn), "merge keeps a binding whose values differ between the two states")
     fn = m.func("SymbExecStateFix.propag_expr_cst")
-    ok = any(isinstance(n, ast.If) and norm(n.test) in ("not element.is_id()",) and any(isinstance(s, ast.Continue) for s in n.body) for n in walk_body(fn)) and \
-        any(isinstance(n, ast.If) and "self.is_expr_cst(" in norm(n.test) for n in walk_body(fn))
+    # every store into the substitution table happens where the leaf is known to be an identifier and its value to satisfy is_expr_cst
+    from sa.facts import guard_facts as _gf
+    pcfg = CFG(fn)
+    pf = _gf(pcfg)
+    sts = [nd for nd in pcfg.nodes if nd.kind == "stmt" and isinstance(nd.ast, ast.Assign) and isinstance(nd.ast.targets[0], ast.Subscript)]
+    ok = bool(sts)
+    for nd in sts:
+        f = pf.get(nd.id, frozenset())
+        leaf = norm(nd.ast.targets[0].slice)
+        is_id = ("true", "%s.is_id()" % leaf) in f
+        cst = any(x[0] == "true" and "is_expr_cst(" in x[1] for x in f)
+        ok = ok and is_id and cst
     ck.ob("R3", "propag_expr_cst", ok, m.where(fn), "substitution must be limited to identifiers whose value satisfies is_expr_cst")
     fn = m.func("SymbExecStateFix.eval_updt_irblock")
     loops = [n for n in walk_body(fn) if isinstance(n, ast.For) and "enumerate(irb)" in norm(n.iter)]
